@@ -302,6 +302,17 @@ PROPS["C01"].streams += [load_fault(("dbg",)), struct_fault(("dbg",))]
 PROPS["C05"].streams.append(load_fault(("rel", "dbg")))
 PROPS["C13"].streams += [load_fault(("rel",), {"HX_ALLOC": "tag"}, "load-fault-tag"), struct_fault(("rel",), {"HX_ALLOC": "tag"}, "growth-fault-tag")]
 
+def accepted_inputs(ctx):
+    """inputs the decoder accepts, as sources for cbor_copy that were NOT built by the construction API"""
+    from . import corr
+    cases = cborgen.load_cases(ctx)
+    lines = corr.run_stream(corr.model_cmd("load", [LDEF, CAP]), cases, timeout=600)
+    ok = ["@" + c for c, l in zip(cases, lines) if l.startswith("ok ") and 4 <= len(c) <= 200]
+    extra = ["@" + cborgen.hx(b) for b in ([0x65, 0x61, 0x62, 0x00, 0x63, 0x64], [0x7F, 0x63, 0x61, 0x00, 0x62, 0x61, 0x00, 0xFF], [0xA1, 0x62, 0x00, 0x41, 0x42, 0x00, 0xFF],
+                                           [0x78, 0x20] + [0x41, 0x00] * 16, [0x82, 0x63, 0x00, 0x00, 0x01, 0x60])]
+    step = max(1, len(ok) // (1500 if ctx.tier == "quick" else 30000))
+    return extra + ok[::step]
+
 def copy_hist_cases(ctx):
     """histories whose focus is cbor_copy: trees with shared sub-items, empty containers, zero-chunk strings, max-width ints; copy, then mutate / release either side"""
     rng = ctx.rng
@@ -325,9 +336,41 @@ def copy_hist_cases(ctx):
     return out
 
 reg(Prop("C11", ["Properties_C11"], [
-    Stream("copy", "copy", lambda ctx: treegen.ser_cases(ctx) + decoded_trees(ctx)[:1500], flavours=("rel", "dbg"), nontrivial=lambda c, l: "(arr" in c or "(map" in c or "(tag" in c or "si" in c,
+    Stream("copy", "copy", lambda ctx: treegen.ser_cases(ctx) + decoded_trees(ctx)[:1500] + accepted_inputs(ctx), flavours=("rel", "dbg"), nontrivial=lambda c, l: "(arr" in c or "(map" in c or "(tag" in c or "si" in c,
            rule="every tree of the C03 space (decoder output + API-built): copy, compare serializations and shapes, address-set disjointness of nodes and buffers, every refcount of the copy = 1, source serialization / shape / refcounts unchanged, release the source and re-check the copy, release the copy and check nothing is left; ASan build"),
     Stream("copy-hist", "hist", copy_hist_cases, args=(LDEF, CAP, "none", 0), flavours=("rel", "dbg"), nontrivial=hist_nt, timeout=600,
            rule="API histories with shared sub-items (which come out unshared), empty containers, zero-chunk strings, max-width ints: copy, then mutate / serialize / release either side; per-step refcounts, sizes, live blocks, allocator trace against model H"),
     struct_fault(("rel",), None, "copy-fault"),
 ], level_note="Theorem copy_spec over model H for an arbitrary allocator oracle (source untouched, copy fresh / disjoint / counts 1 / same abstraction, clean failure), tied by the copy / hist / fault streams"))
+
+# ---- huge buffers (C14) and limits beyond 16 bits (C19): cases no list-based model can evaluate;
+#      the expected line comes from the model on the small part + the theorem (C14_suffix), resp. from
+#      the closed form the theorem C19_exact gives for a chain of tags
+def bigsuffix_cases(ctx):
+    xs = ["01", "8301820203f97e00", "bf6161a0ff", "5f41004101ff", "c1d8646568656c6c6f", "9f9f9fffffff", "3bffffffffffffffff", "f5", "7f626162ff", "a201020304"]   # acceptable items only: the theorem is about acceptable x
+    ys = [0, 1, 2 ** 31 - 12, 2 ** 31, 2 ** 31 + 5, 3 * 2 ** 30, 2 ** 32 - 7, 2 ** 32, 2 ** 32 + 9, 2 ** 33]
+    return ["%s|%d" % (x, y) for x in xs for y in ys]
+
+bigs = Stream("bigsuffix", "bigsuffix", bigsuffix_cases, args=(LDEF, CAP), flavours=("rel",), nontrivial=lambda c, l: not c.endswith("|0"),
+              model_case=lambda c: c.split("|")[0],
+              rule="x followed by up to 2^33 zero bytes of an untouched anonymous mapping (sizes around 2^31 and 2^32): the result must be what the model gives for x alone (theorem C14_suffix); errors on truncated / malformed x likewise position-exact")
+bigs.model_stream = "load"
+PROPS["C14"].streams.append(bigs)
+
+def tagchain_expect(L):
+    def f(case):
+        n = len(case) // 2
+        d = n - 1                       # d tags then the leaf 01
+        if d <= L:
+            return "ok %d %s(u8 1)%s post=%d:%d:1" % (n, "(tag 1 " * d, ")" * d, n, n)
+        return "err MEMERROR %d %d" % (L + 1, L + 1)
+    return f
+BIGL = 70000
+PROPS["C19"].streams.append(Stream("depth-L%d" % BIGL, "depth", lambda ctx: ["c1" * d + "01" for d in (BIGL - 1, BIGL, BIGL + 1, 65535, 65536, 65537)],
+                                   args=(BIGL, CAP), flavours=("rel",), L=BIGL, timeout=900, tiers=("thorough", "search"),
+                                   expect=tagchain_expect(BIGL), nontrivial=lambda c, l: True,
+                                   rule="library rebuilt with CBOR_MAX_STACK_SIZE=%d (beyond 16 bits): chains of tags L-1, L, L+1 and around 65536 deep; expected result in closed form from theorem C19_exact (thorough tier and failing-input search only)" % BIGL))
+
+PROPS["C14"].streams.append(Stream("bigitem", "bigitem", lambda ctx: [str(2 ** 32), str(2 ** 32 + 5), str(2 ** 31 + 1)], flavours=("rel",), timeout=900,
+                                   tiers=("thorough", "search"), expect=lambda c: "ok %d len=%d next=ok:1" % (9 + int(c), int(c)), nontrivial=lambda c, l: True,
+                                   rule="a definite byte string of 2^31+1 / 2^32 / 2^32+5 bytes followed by another item, in an anonymous mapping (needs ~4 GiB for the decoded copy; thorough tier and failing-input search only): bytes-read must be 9+n and the next decode must find the next item (closed form from C14_sequence)"))
